@@ -6,7 +6,7 @@ from . import i_lib
 class TimePattern(i_lib.TimePattern):
     HOURS_24 = set(range(0, 24))
     MINUTES_60 = set(range(0, 60))
-    REGEX_SPEC = r'(\*|\*\d|\d\*|\d\d?):(\d\d|\d\*|\*\d|\*)(?=(\s|$|[\])}#]))'
+    REGEX_SPEC = r'(\*|\*\d|\d\*|\d\d?):(\d\d|\d\*|\*\d|\*)(?=(\s|$|[\[\](){}#]))'
     REGEX = re.compile(REGEX_SPEC)
 
     def __init__(self, hours, minutes):
